@@ -364,27 +364,18 @@ func allSrcFuncs(w *World) map[*ssa.Function]bool {
 		return m
 	}
 	m := map[*ssa.Function]bool{}
+	// every function and method declared in the module's syntax (generic origins included), plus package initialisers
+	for _, f := range w.ModFuncs() {
+		if fn := w.Prog.FuncValue(f); fn != nil && len(fn.Blocks) > 0 {
+			m[fn] = true
+		}
+	}
 	for _, p := range w.Prog.AllPackages() {
 		if !InMod(p.Pkg.Path()) {
 			continue
 		}
-		for _, mem := range p.Members {
-			switch x := mem.(type) {
-			case *ssa.Function:
-				if x.Synthetic == "" || x.Name() == "init" {
-					m[x] = true
-				}
-			case *ssa.Type:
-				for _, t := range []types.Type{x.Type(), types.NewPointer(x.Type())} {
-					ms := w.Prog.MethodSets.MethodSet(t)
-					for i := 0; i < ms.Len(); i++ {
-						f := w.Prog.MethodValue(ms.At(i))
-						if f != nil && f.Synthetic == "" && f.Pkg == p {
-							m[f] = true
-						}
-					}
-				}
-			}
+		if init := p.Func("init"); init != nil {
+			m[init] = true
 		}
 	}
 	srcFuncsCache[w] = m
